@@ -1,6 +1,6 @@
 SPECIFICATION Spec
 CONSTANTS MinN = 5  MaxN = 5  NameIdx = {1, 3, 6}  MaxKids = 3  MaxEdges = 10  MaxIso = 1  MaxExtraRoots = 0
-          RootPerm = FALSE  Topo = TRUE  Gen = TRUE
+          RootPerm = FALSE  Topo = TRUE  SkipTaken = TRUE  Gen = TRUE
 VIEW view
 INVARIANT TypeOK
 INVARIANT Acyclic
